@@ -217,3 +217,117 @@ Definition accepts_b (t : list event) : bool :=
   | Some s => final_b s && list_eqb event_eqb (filter observable ls) t
   | None => false
   end.
+
+(* ---------------------------------------------------------------------------------- *)
+(* Extension: connections that take the h2c upgrade.  With use_h2c on, NewServerWithLogger wraps the
+   handler in h2c.NewHandler; a request that carries the upgrade offer gets its connection HIJACKED
+   by that handler and is served by a private http2.Server.  net/http's Shutdown tracks only its own
+   connections: a hijacked one is neither waited for nor closed.  The extended system runs the base
+   system unchanged (XB) next to the hijacked requests, which Shutdown's quiescence test (quiet, over
+   the base requests only) does not see.  With use_h2c off the offer is ignored: the request is an
+   ordinary base request (Conn/Accept) and XUpgrade is disabled. *)
+Inductive hst := HRun | HDone.
+
+Inductive xevent :=
+| XB (e : event)                  (* an event of the base system *)
+| XUpgrade (r : nat)              (* request r takes the upgrade; its handler starts: observed as Accept r *)
+| XUpDone (r : nat)               (* its handler finished: observed as HandlerDone r *)
+| XUpGot (r : nat) (full : bool). (* its client's outcome: observed as ClientGot r full *)
+
+Record xst := mkx { xb : st; xh : list (nat * hst); xresp : list nat }.
+Definition xinit : xst := mkx init [] [].
+
+Fixpoint geth (r : nat) (m : list (nat * hst)) : option hst :=
+  match m with [] => None | (k, q) :: t => if Nat.eqb r k then Some q else geth r t end.
+
+(* the request id a base event introduces (ids of base and hijacked requests are distinct) *)
+Definition introduces (e : event) : option nat :=
+  match e with Conn r => Some r | ClientGot r false => Some r | _ => None end.
+
+Definition xstep (use_h2c : bool) (s : xst) (e : xevent) : option xst :=
+  match e with
+  | XB e =>
+      match introduces e with
+      | Some r => match geth r (xh s) with
+                  | Some _ => None
+                  | None => option_map (fun b => mkx b (xh s) (xresp s)) (step (xb s) e)
+                  end
+      | None => option_map (fun b => mkx b (xh s) (xresp s)) (step (xb s) e)
+      end
+  | XUpgrade r =>
+      if use_h2c then
+        match lis (xb s), getq r (reqs (xb s)), geth r (xh s) with
+        | LOpen, None, None => Some (mkx (xb s) ((r, HRun) :: xh s) (xresp s))
+        | _, _, _ => None
+        end
+      else None
+  | XUpDone r =>
+      match geth r (xh s) with Some HRun => Some (mkx (xb s) ((r, HDone) :: xh s) (xresp s)) | _ => None end
+  | XUpGot r true =>
+      match geth r (xh s) with
+      | Some HDone => if memn r (xresp s) then None else Some (mkx (xb s) (xh s) (r :: xresp s))
+      | _ => None
+      end
+  | XUpGot r false =>
+      (* the connection is cut: only once the runner has returned (the process may exit) *)
+      match geth r (xh s), runner (xb s) with
+      | Some _, RReturned => if memn r (xresp s) then None else Some (mkx (xb s) (xh s) (r :: xresp s))
+      | _, _ => None
+      end
+  end.
+
+Fixpoint xrun (use_h2c : bool) (s : xst) (ls : list xevent) : option xst :=
+  match ls with
+  | [] => Some s
+  | e :: r => match xstep use_h2c s e with Some s' => xrun use_h2c s' r | None => None end
+  end.
+
+(* what the harness observes of an extended schedule *)
+Definition xobs (e : xevent) : list event :=
+  match e with
+  | XB e => if observable e then [e] else []
+  | XUpgrade r => [Accept r]
+  | XUpDone r => [HandlerDone r]
+  | XUpGot r f => [ClientGot r f]
+  end.
+Definition xtrace (ls : list xevent) : list event := flat_map xobs ls.
+
+Definition is_base (e : xevent) : bool := match e with XB _ => true | _ => false end.
+Definition unbase (ls : list xevent) : list event :=
+  flat_map (fun e => match e with XB b => [b] | _ => [] end) ls.
+
+(* inclusion of an observed trace with upgraded requests [ups] in the extended system: the base part is
+   explained as before (listener already open), the events of the upgraded requests are put back at
+   their places; the guess is validated by running the extended system on it *)
+Definition is_up (ups : list nat) (e : event) : bool :=
+  match e with Accept r | HandlerDone r | ClientGot r _ => memn r ups | _ => false end.
+Definition up_event (e : event) : xevent :=
+  match e with
+  | Accept r => XUpgrade r
+  | HandlerDone r => XUpDone r
+  | ClientGot r f => XUpGot r f
+  | e => XB e
+  end.
+(* the prefix of ls up to and including its first observable event, and the rest *)
+Fixpoint take_obs (ls : list event) : list event * list event :=
+  match ls with
+  | [] => ([], [])
+  | e :: r => if observable e then ([e], r) else let (p, q) := take_obs r in (e :: p, q)
+  end.
+Fixpoint xmerge (ups : list nat) (t : list event) (ls : list event) : list xevent :=
+  match t with
+  | [] => map XB ls
+  | e :: t' =>
+      if is_up ups e then up_event e :: xmerge ups t' ls
+      else let (p, rest) := take_obs ls in (map XB p ++ xmerge ups t' rest)%list
+  end.
+Definition xexplain (ups : list nat) (t : list event) : list xevent :=
+  XB ListenOk ::
+  xmerge ups t (explain (set_lis init LOpen) (filter (fun e => negb (is_up ups e)) t)).
+Definition xaccepts_b (ups : list nat) (t : list event) : bool :=
+  forallb observable t &&
+  let xs := xexplain ups t in
+  match xrun true xinit xs with
+  | Some s => final_b (xb s) && list_eqb event_eqb (xtrace xs) t
+  | None => false
+  end.
